@@ -1220,6 +1220,6 @@ func main() {
 		"maxSize is scaled to 4096 bytes so that exactly-max and oversized messages are cheap to enumerate",
 		"P2-P4 layouts are written directly as files; P1 shows the real writer/rotation produces exactly those bytes",
 	}
-	r.Finish("P1: all sequences <= n over 8 line kinds x all rotation vectors through the real writer; P2: every byte cut of every log in a covering set (all sequences <= 2 over 7 kinds, two layouts, + long logs); P3: every byte of every line x substitution set; P4: all {message,marker} sequences <= n x all splits into <= F files x all heights x 5 option sets; P5: all {message,marker} sequences <= 3 (4 in two layouts; thorough 6) x all splits x every byte cut x all heights x search modes, exact ending oracle (EOF or corruption error only) as in P2. distinct = distinct layouts in P1/P4, distinct (line kind, context, byte offset[, value]) faults in P2/P3 and distinct (layout, cut) in P5",
+	r.Finish("P1: all sequences <= n over 8 line kinds x all rotation vectors through the real writer; P2: every byte cut of every log in a covering set (all sequences <= 2 over 7 kinds, two layouts, + long logs); P3: every byte of every line x substitution set; P4: all {message,marker} sequences <= n x all splits into <= F files x all heights x 5 option sets; P5: all {message,marker} sequences <= 3 (4 in two layouts; thorough 5 + the 12-line log) x all splits x every byte cut x all heights x search modes, exact ending oracle (EOF or corruption error only) as in P2. distinct = distinct layouts in P1/P4, distinct (line kind, context, byte offset[, value]) faults in P2/P3 and distinct (layout, cut) in P5",
 		true, map[string]any{"phases_env": only})
 }
